@@ -1,0 +1,9 @@
+//go:build verif
+
+package access
+
+// VerifC10LowerRule returns the text that [NewGlobal] and the engine of a
+// [DefaultProfile] give to the rule engine for the access rule text.
+func VerifC10LowerRule(text string) (lowered string) {
+	return lowerRule(text)
+}
